@@ -343,16 +343,52 @@ def check_module_glue(chk, ix):
     chk.rule("M6", WHAT["M6"])
     chk.rule("M7", WHAT["M7"])
     f = ix.func("behave.runner_util:load_step_modules")
+    # by evaluation: two step directories, step modules and another file; what is called, in which order
+    log = []
+    listing = {"/p1": ["b.py", "a.py", "readme.txt"], "/p2": ["c.py"]}
+
+    def rec(tag):
+        def stub(it_, st_, a, k, n):
+            log.append((tag, a[0] if a and isinstance(a[0], str) else None))
+            return [(st_, "val", None)]
+        return stub
+
+    def listdir(it_, st_, a, k, n):
+        log.append(("listdir", a[0]))
+        return [(st_, "val", st_.alloc(HObj("list", kind="list", items=list(listing.get(a[0], [])))))]
+    stubs = {"@with": "transparent", "PathManager": lambda it_, st_, a, k, n: [(st_, "val", "path-manager")],
+             "setup_step_decorators": rec("decorators"), "behave.step_registry.setup_step_decorators": rec("decorators"),
+             "use_current_step_matcher_as_default": rec("capture-default"), "behave.matchers.use_current_step_matcher_as_default": rec("capture-default"),
+             "use_default_step_matcher": rec("restore"), "behave.api.step_matchers.use_default_step_matcher": rec("restore"),
+             "behave.matchers.use_default_step_matcher": rec("restore"),
+             "exec_file": rec("exec"), "behave.runner_util.exec_file": rec("exec"), "os.listdir": listdir,
+             "os.path.join": lambda it_, st_, a, k, n: [(st_, "val", "/".join(a) if all(isinstance(x, str) for x in a) else Top("path", False))]}
+    it = Interp(ix, stubs=stubs, name="load_step_modules")
+    it.int_sat = 100
+    it.list_cap = 100
+    st = State()
+    st.frames = []
+    outs = it.call_function(st, f, [st.alloc(HObj("list", kind="list", items=["/p1", "/p2"]))], {}, None)
+    chk.absorb(it)
     chk.instance("M6")
-    ok = False
-    for n in ast.walk(f.node):
-        if isinstance(n, ast.For) and "listdir" in unparse(n.iter):
-            ok = any(isinstance(m, ast.Call) and unparse(m.func) == "use_default_step_matcher" for b in n.body for m in ast.walk(b))
-    if ok:
-        chk.ok("M6", {"load_step_modules": "use_default_step_matcher() inside the per-module loop"}, nontrivial_key="restore")
+    if len(outs) != 1 or outs[0][1] != "val":
+        raise AnalysisError("load_step_modules not evaluable: %r" % ([(k, v) for _, k, v in outs][:3],))
+    execs = [i for i, e in enumerate(log) if e[0] == "exec"]
+    loaded = [log[i][1] for i in execs]
+    if loaded != ["/p1/a.py", "/p1/b.py", "/p2/c.py"]:
+        raise AnalysisError("load_step_modules: unexpected modules executed: %r" % (loaded,))
+    problems = []
+    for a, b in zip(execs, execs[1:] + [len(log)]):
+        if not any(e[0] == "restore" for e in log[a + 1:b]):
+            problems.append("no use_default_step_matcher() after %s%s" % (log[a][1], " (the last module: the next load or the hooks inherit its matcher)"
+                                                                           if b == len(log) else " and before the next module"))
+    if not any(e[0] == "capture-default" for e in log[:execs[0]]):
+        problems.append("the matcher chosen in environment.py is not taken as default before the first module is loaded")
+    if not problems:
+        chk.ok("M6", {"calls": ["%s %s" % (t, a or "") for t, a in log if t in ("exec", "restore", "capture-default")]}, nontrivial_key="restore")
     else:
-        _fail(chk, "M6", f, "default matcher not restored per module", "the default step matcher is not restored after each step module: a "
-              "use_step_matcher() in one module changes how the next module's patterns are read")
+        _fail(chk, "M6", f, problems[0], "the default step matcher is not restored after each step module (%s): a "
+              "use_step_matcher() in one module changes how the next module's patterns are read" % "; ".join(problems))
     g = ix.func("behave.step_registry:setup_step_decorators")
     chk.instance("M7")
     types = None
